@@ -241,6 +241,20 @@ def gen_basic():
     return gen
 
 
+def gen_long_traces():
+    def gen():
+        for moves in (130, 260):
+            script = {f'1:{k + 1}': [['A', ['move', 1.0]], ['B', ['move', 0.5 + k]]] for k in range(moves)}
+            for trace in (True, ['B', 'A'], 'B'):
+                c = {'entry': 'solve_t', 't': 1, 'trace': trace, 'opts': {'max_iter': moves + 5, 'tol': 0.25, 'failures': 'ignore'}}
+                yield {'n': 3, 'script': script, 'calls': [c]}
+        # many repeated traced solves of one period
+        script = {f'1:{k + 1}': [['A', ['move', 1.0]], ['B', ['move', 2.0]]] for k in range(3)}
+        c = {'entry': 'solve_t', 't': 1, 'trace': ['A', 'B'], 'opts': {'max_iter': 5, 'tol': 0.25, 'failures': 'ignore'}}
+        yield {'n': 3, 'script': script, 'calls': [c] * 30}
+    return gen
+
+
 def gen_name_list_change():
     def gen():
         for first, second in ((True, ['A']), (['A', 'B'], ['A']), (['A'], ['A', 'B']), ('A', 'B'), (['A', 'B'], ['B', 'A'])):
@@ -254,6 +268,7 @@ def phases(tier):
     quick = tier == 'quick'
     return [
         Phase('name-list-change', check_case, gen=gen_name_list_change(), exhaustive=True),
+        Phase('long-traces', check_case, gen=gen_long_traces(), shards=7),
         Phase('basic-family', check_case, gen=gen_basic(), exhaustive=True),
         Phase('histories', check_case, strategy=strategy, examples=8000 if quick else 200000),
     ]
